@@ -23,4 +23,14 @@ PROPS = {
         trusted=["modelled, not verified: Go regexp engine on whole lines (tied by exhaustive small arrangements), go/parser+go/printer re-formatting, astutil import deletion, os file API"],
         assumptions=["A2: go/printer∘go/parser preserves syntax tree and comments", "A3: astutil.DeleteNamedImport only edits import declarations"],
     ),
+    "C07": dict(
+        lean=["GoatSpec.Properties.C07"],
+        streams=["runtime-ops"],
+        e2e=[],
+        trusted=["modelled, not verified: Go semantics of the rendered template (array indexing, uint32 arithmetic, strconv.Atoi, strings.Split, map lookup), sync/atomic (one Track call = one atomic step), net/http request parsing, encoding/json; tied by compiling and running the real rendered code (runtime-ops)",
+                 "Go-side oracles of runtime-ops outside the model: md5 `version` of the items, item names TRACK_ID_<id>, app name/version labels, HELP/TYPE lines of /metrics (flag h1 in the canonical answer)",
+                 "canonicalisation in the harness: /track items inside a run of equal sort keys are put in ascending id order (sort.Slice is unstable); runtime panic texts mapped to {div0, oob i len}"],
+        assumptions=["A7: sync/atomic, net/http, encoding/json behave as documented; a Track call with race:true is a single atomic read-modify-write (theorem atomic_interleave is about interleavings of such steps; without race only sequential callers are in scope)",
+                     "Values as goat builds them: TrackIds = 1..N in order, component ids = positions, component names pairwise distinct, component ids within 1..N (anything else does not compile)"],
+    ),
 }
